@@ -18,7 +18,7 @@ def build(tier, seed):
             'assumptions': [
                 'A3 torch contracts: indexing (basic = view, list = copy), cummax/cummin/max/min as big operators, cat, transpose, in-place column copy, Module.__call__ runs forward then the forward hooks',
                 'user modules are point-wise in time on the all-steps-at-once branch (the documented (N,*,F)->(N,*,H) contract); modelled as an uninterpreted function of the features at the same (n,t); no assumption is needed on the step-by-step branch',
-                'the all-steps-at-once branch is verified for all N and T; the step-by-step loop of compute_hedge is unrolled for T in {2,3} (quick) / {2..5} (thorough) with symbolic N - the per-feature obligations are for every step i and every T',
+                'the all-steps-at-once branch is verified for all N and T; the step-by-step loop of compute_hedge is CUT by an invariant (HS/compute_hedge/loop:*: every T, symbolic N; H in {1,2}): len(outputs) == time_step, and the ghost footprint invariant "outputs[k] and the heap cell prev_output read market data of columns <= k only", established for the output of an arbitrary step by access analysis of its term (buffers at columns <= i, earlier outputs at indices < i); the same loop is additionally unrolled for T in {2,3} (quick) / {2..5} (thorough) as a second route; the per-feature obligations are for every step i and every T',
                 'a listed derivative\'s pricer and a local-volatility function are user code: their own non-anticipativity is a precondition',
                 'A1 reals for floats',
             ],
